@@ -1,3 +1,4 @@
+import RtcModel.Drv.C01
 import RtcModel.SctpTrace
 import RtcModel.Drv.Util
 namespace RtcModel.Drv.C13
@@ -163,6 +164,7 @@ def handle (stream : String) (args : List String) : String :=
   | "sackchunk" => doSackChunk args
   | "wire" => doWire args
   | "txw" => doTxw args
+  | "hsack" => RtcModel.Drv.C01.doHsack args
   | "t3" => doT3 args
   | "tlp" => doTlp args
   | "tx" => doTx args
